@@ -14,7 +14,7 @@
    the property and outside the model. *)
 From Coq Require Import List ZArith Lia.
 Require Import Avro.Model.Base Avro.Model.Prim Avro.Model.Container Avro.Model.Writer.
-Require Import Avro.Proofs.WriterP.
+Require Import Avro.Proofs.WriterP Avro.Proofs.GranularityP.
 Import ListNotations.
 Open Scope Z_scope.
 
@@ -80,6 +80,30 @@ Theorem C16_header_fault : forall compress sync size schema_json codec_name ops 
   (firstn partial (header_bytes schema_json codec_name sync), true).
 Proof. exact file_run_fault_header. Qed.
 Print Assumptions C16_header_fault.
+
+(* The property speaks of "its k-th write": how many Write calls carry the header
+   and a block is the implementation's choice.  For EVERY way of cutting the same
+   byte stream into Write calls (lens: the lengths of the calls), the writer that
+   refuses call k after taking [partial] bytes holds a prefix of the fault-free
+   stream, the failure is reported exactly when a call was refused (k < number of
+   calls), and without a refusal everything is written.  With the model's own
+   cutting (one Write for the header, four per block) this is the stateful fault
+   run above. *)
+Theorem C16_any_write_granularity : forall compress sync size schema_json codec_name ops lens k partial,
+  let stream := concat (file_chunks compress schema_json codec_name sync size ops) in
+  list_sum lens = length stream ->
+  let r := fault_of_chunks (rechunk lens stream) k partial in
+  (exists tail, stream = fst r ++ tail) /\
+  (snd r = true <-> (k < length lens)%nat) /\
+  (snd r = false -> fst r = stream).
+Proof. intros c s z sj cn ops lens k p. exact (fault_any_granularity c sj cn s z ops lens k p). Qed.
+Print Assumptions C16_any_write_granularity.
+
+Theorem C16_model_granularity : forall compress sync size schema_json codec_name ops k partial,
+  file_run_fault compress schema_json codec_name sync size ops k partial =
+  fault_of_chunks (file_chunks compress schema_json codec_name sync size ops) k partial.
+Proof. intros c s z sj cn ops k p. exact (file_run_fault_is_fault_of_chunks c sj cn s z ops k p). Qed.
+Print Assumptions C16_model_granularity.
 
 (* the file is the header followed by the blocks of the specification (C09) *)
 Theorem C16_file_is_header_then_blocks : forall compress sync size schema_json codec_name ops,
